@@ -3,6 +3,7 @@ package gobeansdb
 import (
 	"errors"
 	"fmt"
+	"strconv"
 	"sync"
 
 	"github.com/douban/gobeansdb/cmem"
@@ -128,6 +129,9 @@ func (s *StorageClient) Get(key string) (*mc.Item, error) {
 			if len(key2) != 16 {
 				return nil, fmt.Errorf("bad command line format") //FIXME: SERVER_ERROR
 			}
+			if _, e := strconv.ParseUint(key2, 16, 64); e != nil {
+				return nil, fmt.Errorf("bad command line format")
+			}
 			ki := s.prepare(key2, true)
 			rec, _, err := s.hstore.GetRecordByKeyHash(ki)
 			if err != nil {
@@ -151,6 +155,9 @@ func (s *StorageClient) Get(key string) (*mc.Item, error) {
 				return item, nil
 			}
 		} else {
+			if len(key) > 17 {
+				return nil, fmt.Errorf("bad command line format")
+			}
 			return s.listDir(key[1:])
 		}
 
